@@ -12,6 +12,10 @@
 //       -> one call on the main thread (baseline), then <threads> threads released by a barrier, each making
 //          <iterations> calls; every rendering is compared in-process with the baseline:
 //          SAME\t<threads*iterations>\t<baseline rendering>     or     DIFF\t<baseline>\t||\t<first different>
+//   TB\t<threads>\t<iterations>\t<J|C>:<schema hex>:<doc hex>\t<J|C>:...   (a batch of cases)
+//       -> baselines on the main thread, then <threads> threads released by a barrier; thread t makes, <iterations> times,
+//          the calls of the whole batch starting at a different offset (so different calls overlap), comparing with the baselines:
+//          SAME\t<number of threaded calls>\t||\t<baseline 0>\t||\t<baseline 1>...   or   DIFF\t<case index>\t<baseline>\t||\t<other>
 //   X\t<hex location>                    (no call) echoes; used to keep the line protocol aligned in warm-up blocks
 use std::sync::{Arc, Barrier};
 
@@ -127,11 +131,60 @@ fn threads(parts: &[&str]) -> String {
   }
 }
 
+fn thread_batch(parts: &[&str]) -> String {
+  let n: usize = parts[1].parse().unwrap_or(16);
+  let iters: usize = parts[2].parse().unwrap_or(2);
+  let mut cases: Vec<(String, String, Vec<u8>)> = Vec::new();
+  for spec in &parts[3..] {
+    let f: Vec<&str> = spec.split(':').collect();
+    if f.len() != 3 {
+      return "?".to_string();
+    }
+    cases.push((f[0].to_string(), impl_driver::unhex_str(f[1]), impl_driver::unhex(f[2])));
+  }
+  let base: Vec<String> = cases.iter().map(|(w, s, d)| call(w, s, d)).collect();
+  let cases = Arc::new(cases);
+  let base = Arc::new(base);
+  let barrier = Arc::new(Barrier::new(n));
+  let mut hs = Vec::new();
+  for t in 0..n {
+    let (cases, base, b) = (cases.clone(), base.clone(), barrier.clone());
+    hs.push(std::thread::spawn(move || {
+      b.wait();
+      let m = cases.len();
+      for _ in 0..iters {
+        for k in 0..m {
+          let i = (k + t * 7) % m;
+          let (w, s, d) = &cases[i];
+          let r = call(w, s, d);
+          if r != base[i] {
+            return Some((i, r));
+          }
+        }
+      }
+      None
+    }));
+  }
+  let mut diff = None;
+  for h in hs {
+    match h.join() {
+      Ok(Some(r)) => diff = diff.or(Some(r)),
+      Ok(None) => {}
+      Err(_) => diff = diff.or(Some((0, "THREAD-PANIC".to_string()))),
+    }
+  }
+  match diff {
+    None => format!("SAME\t{}\t||\t{}", n * iters * cases.len(), base.join("\t||\t")),
+    Some((i, r)) => format!("DIFF\t{}\t{}\t||\t{}", i, base[i], r),
+  }
+}
+
 fn dispatch(parts: &[&str]) -> String {
   match parts[0] {
     "J" if parts.len() >= 3 => thrice("J", parts),
     "C" if parts.len() >= 3 => thrice("C", parts),
     "T" if parts.len() >= 6 => threads(parts),
+    "TB" if parts.len() >= 4 => thread_batch(parts),
     "X" => "X".to_string(),
     _ => "?".to_string(),
   }
